@@ -92,6 +92,10 @@ var coseAlgSignatureAlgMap = map[cose.Algorithm]signature.Algorithm{
 	cose.AlgorithmES512: signature.AlgorithmES512,
 }
 
+// systemHeaders includes all system aware labels of the COSE protected header
+var systemHeaders = []any{cose.HeaderLabelAlgorithm, cose.HeaderLabelCritical, cose.HeaderLabelContentType,
+	headerLabelExpiry, headerLabelSigningScheme, headerLabelSigningTime, headerLabelAuthenticSigningTime}
+
 // Map of signingScheme to signingTime header label
 var signingSchemeTimeLabelMap = map[signature.SigningScheme]string{
 	signature.SigningSchemeX509:                 headerLabelSigningTime,
@@ -480,7 +484,7 @@ func generateProtectedHeaders(req *signature.SignRequest, protected cose.Protect
 		if !isValidLabel(elm.Key) {
 			return &signature.InvalidSignRequestError{Msg: fmt.Sprintf("extended attribute key %v: require int / tstr type, got '%T'", elm.Key, elm.Key)}
 		}
-		if _, ok := protected[elm.Key]; ok {
+		if _, ok := protected[elm.Key]; ok || contains(systemHeaders, elm.Key) {
 			return &signature.InvalidSignRequestError{Msg: fmt.Sprintf("%q already exists in the protected header", elm.Key)}
 		}
 		if elm.Critical {
@@ -608,8 +612,6 @@ func validateCritHeaders(protected cose.ProtectedHeader) ([]any, error) {
 	}
 
 	// fetch all the extended signed attributes
-	systemHeaders := []any{cose.HeaderLabelAlgorithm, cose.HeaderLabelCritical, cose.HeaderLabelContentType,
-		headerLabelExpiry, headerLabelSigningScheme, headerLabelSigningTime, headerLabelAuthenticSigningTime}
 	var extendedAttributeKeys []any
 	for label := range protected {
 		if contains(systemHeaders, label) {
